@@ -406,8 +406,17 @@ def run_load(case, tables, want_sel, sel_err, counters, cov, form, arm, contract
             d.Flow(*[lab.source(n, FIELDS, tables[n]) for n in names],
                    d.dump_to_path('pkg')).process()
         step = d.load('pkg/datapackage.json', resources=copy.deepcopy(s), strip=False)
+    # the flow already holds a resource under the name of a SELECTED resource (the loaded one gets a free name): the
+    # selection, and the rows of every selected resource, stay what the selector says
+    taken = None
+    pre_ = []
+    if proc in ('load_tuple', 'load_package') and want_sel and sel_err is None and \
+            boot.rng(case.get('seed', 0), 'C10', 'taken', proc, json.dumps(s), ','.join(names)).random() < 0.3:
+        taken = want_sel[len(want_sel) // 2]
+        pre_ = [lab.source(taken, [{'name': 'z', 'type': 'integer'}], [{'z': 1}])]
+        cov['proc_x_form']['%s/%s/selected_name_already_in_the_flow' % (proc, form)] = 1
     arm['on'] = True
-    got = lab.run([step], validate=True)
+    got = lab.run(pre_ + [step], validate=True)
     arm['on'] = False
 
     def v(kind, msg, **kw):
@@ -427,6 +436,20 @@ def run_load(case, tables, want_sel, sel_err, counters, cov, form, arm, contract
         return dict(nontrivial=False, violations=viol, cov=cov, counters=counters)
     if sel_err is not None:
         want_sel = []
+    if taken:
+        if len(got.names) != len(want_sel) + 1 or [n for n in got.names[1:] if n != taken and n in want_sel] != \
+                [n for n in want_sel if n != taken] or len(set(got.names)) != len(got.names):
+            v('resource_set', '%s(resources=%r) on %r with %r already in the flow: resources %r, expected the selected %r after it'
+              % (proc, s, names, taken, got.names, want_sel))
+        else:
+            for n, rows in zip(want_sel, got.results[1:]):
+                counters['resources_compared'] += 1
+                diffs = lab.rows_diff(tables[n], rows)
+                if diffs:
+                    v('resource_content', '%s(resources=%r) with %r already in the flow: resource %r: %s'
+                      % (proc, s, taken, n, diffs))
+        return dict(nontrivial=0 < len(want_sel) < len(names), violations=viol, cov=cov, counters=counters,
+                    sample={'names': names, 'selector': s, 'proc': proc, 'reference_selection': want_sel, 'taken': taken})
     if got.names != want_sel:
         v('resource_set', '%s(resources=%r) on %r loaded %r expected %r'
           % (proc, s, names, got.names, want_sel))
